@@ -240,7 +240,10 @@ func c10Probes(file string) []c10Input {
 	mk := func(cmd string) c10Input {
 		return c10Input{Hex: fmt.Sprintf("%x", "protocol 4.1 base64 "+base64.StdEncoding.EncodeToString([]byte(cmd))+";"), Class: "probe"}
 	}
-	return []c10Input{mk("tail"), mk("cat"), mk("grep"), mk("map"), mk("map "), mk("map `"), mk("map select ` from x"), mk("cat " + file),
+	raw := func(b string) c10Input { return c10Input{Hex: fmt.Sprintf("%x", b), Class: "probe"} }
+	return []c10Input{raw("protocol 4.1 base64;"), raw("protocol 4.1;"), raw("protocol;"), raw("protocol 4.1 base64 ;"), raw("protocol 4.1 base64  x;"),
+		raw("protocol 4.1 BASE64 Y2F0;"), raw("protocol 4.1 base64 Y2F0 extra;"), raw("protocol 9.9 base64 Y2F0;"), raw(";"), raw(" ;"), raw("base64;"),
+		mk("tail"), mk("cat"), mk("grep"), mk("map"), mk("map "), mk("map `"), mk("map select ` from x"), mk("cat " + file),
 		mk("map select count($line) from STATS interval 0"), mk("map select count($line) from STATS interval -1"),
 		mk("map:plain=true"), mk(".ack"), mk("timeout"), mk("tail:max=1"), mk(""),
 		mk("cat " + filepath.Dir(file) + "//many/m00*.log regex:noop "), mk("cat " + filepath.Dir(file) + "/./*/m01*.log regex:noop "),
